@@ -429,9 +429,16 @@ def _outcomes(prog, fn, pv, n, variant, gates):
                 tails.append(e)
         if "tail" in b:
             tails.append(b["tail"])
+        acc = list(gates)
         for e in tails:
-            res |= {o for o in _outcomes(prog, fn, pv, e, variant, gates) if o[0] is not None}
-        return res or {(None, frozenset(gates))}
+            res |= {o for o in _outcomes(prog, fn, pv, e, variant, acc) if o[0] is not None}
+            pe = hir.peel(e)
+            if pe.get("k") == "If" and "else" not in pe and hir.diverges(pe["then"]):
+                # a guard clause: what follows runs under the negated condition
+                acc = acc + _gates_of(fn, pe["cond"], False)
+        return res or {(None, frozenset(acc))}
+    if k == "Ret" and n.get("x") is not None:
+        return _outcomes(prog, fn, pv, n["x"], variant, gates)
     if hir.is_call(n):
         name = hir.callee_name(n) or n.get("method")
         if name in REPLACE_FNS:
@@ -534,13 +541,23 @@ def rule_receiver_table(check):
                         work_.append(h_)
         return out_
 
-    for f_, c in [(g_, x) for g_ in upto_replace(f) for x in hir.walk(g_.body) if hir.is_call(x) and hir.callee_name(x) in REPLACE_FNS]:
-        ok = False
+    fam = upto_replace(f)
+
+    def under_ident(f_, c, depth=0):
+        """the site runs under a `MemberProp::Ident` pattern: in its own function, or at every site its
+        function is called from (the helpers to_dd_call_expr is split into)"""
         for cd in f_.conds_at(c):
             if cd["t"] == "pat" and cd["v"]:
                 for q in hir.walk_pat(cd["pat"]):
                     if str(hir.pat_variant(q)).endswith("MemberProp::Ident"):
-                        ok = True
+                        return True
+        if f_ is f or depth > 3:
+            return False
+        sites_ = [(g_, x) for g_ in fam for x in hir.walk(g_.body) if hir.is_call(x) and prog.resolve_local(x) is f_]
+        return bool(sites_) and all(under_ident(g_, x, depth + 1) for g_, x in sites_)
+
+    for f_, c in [(g_, x) for g_ in fam for x in hir.walk(g_.body) if hir.is_call(x) and hir.callee_name(x) in REPLACE_FNS]:
+        ok = under_ident(f_, c)
         check.expect(ok, R, R + "/ident-property/" + hir.callee_name(c), hir.loc(c), "only identifier (non-computed) properties", "a hook is built for a property that is not matched as MemberProp::Ident (computed names are a documented exclusion)")
     # bare calls
     bare = [c for g_ in upto_replace(f) for c in hir.walk(g_.body) if hir.is_call(c) and hir.callee_name(c) == "replace_call_expr_if_csi_method_without_callee"]
@@ -730,6 +747,8 @@ def _atom_name(fn, e, truth):
     """canonical, line-free name of one condition of the apply-argument test"""
     import re
 
+    if hir.peel(e).get("k") == "LetCond":
+        e = {"k": "PatCond", "pat": hir.peel(e)["pat"], "scrut": hir.peel(e)["init"]}
     if e.get("k") == "PatCond":
         # patterns of the argument test: a slice pattern with n elements and a rest says len >= n;
         # Some/None on `.as_array()` says whether the list is an array literal
